@@ -1311,9 +1311,9 @@ func init() {
 		}
 	})
 	// C04(b): batches committed by several clients, crashed anywhere
-	withCCrashArm("C04", 0.2, func(c *Case, rng *vrt.Rand, tier string) {
+	withCCrashArm("C04", 0.3, func(c *Case, rng *vrt.Rand, tier string) {
 		crashBudget(c, rng, tier, true)
-		if rng.Chance(0.35) {
+		if rng.Chance(0.5) {
 			mergeRace(c, rng, 4, 0, 0, 1)
 			return
 		}
@@ -1327,7 +1327,7 @@ func init() {
 		}
 	})
 	// C07(b): the process dies while Merge runs next to writers
-	withCCrashArm("C07", 0.4, func(c *Case, rng *vrt.Rand, tier string) {
+	withCCrashArm("C07", 0.5, func(c *Case, rng *vrt.Rand, tier string) {
 		crashBudget(c, rng, tier, false)
 		if rng.Chance(0.6) {
 			mergeRace(c, rng, 3, 1, 1, 2)
@@ -1430,6 +1430,9 @@ func mergeRace(c *Case, rng *vrt.Rand, modeW ...int) {
 			case 0:
 				op := Op{K: "batch", Flag: rng.Chance(0.2)}
 				big := rng.Chance(0.5)
+				if big && c.Cfg.FileSize > 512 {
+					c.Cfg.FileSize = []int64{200, 512}[rng.Intn(2)] // small enough for the batch to flush a piece early
+				}
 				for b := 0; b < rng.Range(1, 6); b++ {
 					bk := keys[rng.Intn(len(keys))]
 					switch x := rng.Intn(10); {
@@ -1443,6 +1446,9 @@ func mergeRace(c *Case, rng *vrt.Rand, modeW ...int) {
 						op.Sub = append(op.Sub, Op{K: "bdel", Key: bk})
 					default:
 						op.Sub = append(op.Sub, Op{K: "yield"})
+					}
+					if big && rng.Chance(0.5) {
+						op.Sub = append(op.Sub, Op{K: "yield"}) // keep the batch open while the merge advances
 					}
 				}
 				c.Clients[ci] = append(c.Clients[ci], op)
